@@ -3,7 +3,7 @@
    reports over-constraint. *)
 From Coq Require Import List String Ascii Arith Bool ZArith.
 From PC Require Import Base.Sexp Base.Codes Comp.Syntax Comp.Compile Comp.WfPil Design.Designer Design.CrossProofs Design.Results Design.ResultsProofs
-  Design.Loaded Design.SeedTotal Design.SysFinish Finish.Apply Sys.System Sys.PrefixProofs Sys.LoadWf Sys.SysWfPil.
+  Design.Loaded Design.SeedTotal Design.SysFinish Finish.Apply Sys.System Sys.PrefixProofs Sys.LoadWf Sys.SysWfPil Sys.SysNames.
 Import ListNotations.
 Local Open Scope string_scope.
 
@@ -41,3 +41,21 @@ Proof. intros H N VT. destruct (compiled_system_wf_pil _ _ _ _ _ _ _ H) as [o [L
   exists o, p, (build_layout p false), g. split; [exact L | split; [exact LOAD | split; [exact SEED|]]].
   destruct (loaded_total lines p _ g LOAD SEED) as [O|[e [w [s A]]]]; [left; exact O|]. right. exists e, w, s. split; [exact A|].
   intros nts F. subst lines. apply (system_design_finishes o p _ g e w s nts (proj1 (load_file_sys_wf fs includes 12 _ _ _ _ _ _ _ L)) LOAD SEED A F). Qed.
+
+(* ... and with the names of the program being identifiers (no '*', no '-' in instance and signal names, no structure named
+   like a sequence of its component) no hypothesis on the records is left *)
+Theorem compiled_system_end_to_end_names fs includes ctr basename args lines ctr' :
+  compile_top fs includes ctr basename args [] = OK (lines, ctr') ->
+  (forall o, load_file fs includes 12 ctr basename args "" "." = OK (o, ctr') -> names_ok2 12 o) ->
+  (forall n k len, In (PSeq n k len) lines -> valid_template k = true) ->
+  exists o p lay g, load_file fs includes 12 ctr basename args "" "." = OK (o, ctr') /\ load_spec lines pspec0 = OK p /\ seed p false = OK (lay, g) /\
+    (get_constraints p false = DOver \/
+     exists e w s, get_constraints p false = DOk e w s /\
+       forall nts, fits nts e w ->
+         exists a recs, process_results p lay nts = OK a /\ output_records p a = OK recs /\ exists f, apply_obj 12 (table_of recs) o = OK f).
+Proof. intros H N VT.
+  destruct (compiled_system_end_to_end fs includes ctr basename args lines ctr' H (fun o L => names_ok2_ok 12 o (N o L)) VT) as [o [p [lay [g [L [LOAD [SEED R]]]]]]].
+  exists o, p, lay, g. split; [exact L | split; [exact LOAD | split; [exact SEED|]]]. destruct R as [O|[e [w [s [A F]]]]]; [left; exact O|]. right. exists e, w, s. split; [exact A|].
+  intros nts FT. destruct (F nts FT) as [a [recs [PR [OR FIN]]]]. exists a, recs. split; [exact PR | split; [exact OR|]]. apply FIN.
+  destruct (compiled_system_wf_pil _ _ _ _ _ _ _ H) as [o' [L' [E _]]]. rewrite L in L'. inversion L'; subst o'. subst lines.
+  apply (system_record_names_distinct o p a recs (proj1 (load_file_sys_wf fs includes 12 _ _ _ _ _ _ _ L)) (load_file_wp fs includes 12 _ _ _ _ _ _ _ L) (N o L) LOAD OR). Qed.
